@@ -94,11 +94,18 @@ func genSrcList(r *gen.R, src string, n int, keyspace int, groups bool) []srcKV 
 		tag := fmt.Sprintf("%s#%d", src, i)
 		if groups && r.P(12) {
 			g := srcKV{key: fmt.Sprintf("g%d", r.Intn(3)), isG: true, grp: []srcKV{}}
+			if r.P(25) {
+				g.key = fmt.Sprintf("k%02d", r.Intn(keyspace)) // a key that plain attributes use too: one key, one (the last) value
+			}
 			m := r.Intn(5)
 			for j := 0; j < m; j++ {
 				g.grp = append(g.grp, srcKV{key: fmt.Sprintf("m%d", r.Intn(4)), src: fmt.Sprintf("%s.%d", tag, j)})
 			}
 			out = append(out, g)
+			continue
+		}
+		if groups && r.P(4) {
+			out = append(out, srcKV{key: fmt.Sprintf("g%d", r.Intn(3)), src: tag}) // a plain attribute under a key that groups use too
 			continue
 		}
 		out = append(out, srcKV{key: fmt.Sprintf("k%02d", r.Intn(keyspace)), src: tag})
@@ -152,6 +159,20 @@ func c07main(c *Ctx) {
 				src = "own"
 			}
 			own[d] = genSrcList(r, src, n, keyspace, groups)
+			// the whole list built with NewAttrs("k", v, ...) - duplicates included - and bound in one call
+			if r.P(15) && len(own[d]) > 0 {
+				var pairs []any
+				for _, kv := range own[d] {
+					if kv.isG {
+						pairs = append(pairs, kv.attr())
+					} else {
+						pairs = append(pairs, kv.key, kv.src)
+					}
+				}
+				chain[d].SetAttrs1(slog.NewAttrs(pairs...))
+				c.R.Add("attribute_lists_built_with_NewAttrs", 1)
+				continue
+			}
 			for _, kv := range own[d] {
 				switch r.Intn(3) {
 				case 0:
